@@ -104,14 +104,26 @@ fn parse_list_declaration(input: &str) -> Result<ListDeclaration, CompilerError>
                 ))
             })?;
             value = explicit_value;
+            check_list_item_value(&item_name, value)?;
             items.push((item_name, value, selected));
         } else {
+            check_list_item_value(inner, value)?;
             items.push((inner.to_owned(), value, selected));
         }
         value += 1;
     }
 
     Ok(ListDeclaration { name, items })
+}
+
+/// List item values are 32-bit signed integers in the runtime.
+fn check_list_item_value(item_name: &str, value: u32) -> Result<(), CompilerError> {
+    if value > i32::MAX as u32 {
+        return Err(CompilerError::invalid_source(format!(
+            "LIST item value out of range: '{item_name} = {value}'"
+        )));
+    }
+    Ok(())
 }
 
 fn parse_assignment(input: &str) -> Result<Node, CompilerError> {
